@@ -497,6 +497,99 @@ def stage_corr(ctx: Ctx, progs):
     ctx.correspondence('models/Subst.v sub / subn / cnt == FST.subn (operand swap of every BinOp, flat and nested) on encoded trees', len(terms), [meta[i] for i in failed])
 
 
+EHDR = ('From Coq Require Import List Bool Arith.\nFrom PF Require Import models.StrRepr models.SlotEscape.\nImport ListNotations.\n'
+        "Fixpoint ps_eqb (a b : pystr) : bool := match a, b with [], [] => true | x :: a', y :: b' => sym_eqb x y && ps_eqb a' b' | _, _ => false end.\n")
+
+
+def _sym_plain(ch):
+    return {'"': 'DQ', "'": 'SQ', '\\': 'BS', '\n': 'NL', '\t': 'TAB', '\0': 'NUL'}.get(ch) or (f'P {ord(ch)}' if ch.isprintable() else f'NP {ord(ch)}')
+
+
+def _syms_escaped(text):
+    """the symbols of a text in which every backslash starts an escape (what sub() writes into the string)"""
+    out, i = [], 0
+    while i < len(text):
+        ch = text[i]
+        if ch != '\\':
+            out.append(_sym_plain(ch))
+            i += 1
+            continue
+        m = re.match(r'''\\(x00|n|t|["'\\]|x[0-9a-f]{2}|u[0-9a-f]{4}|U[0-9a-f]{8}|r|f|v|a|b)''', text[i:])
+        if not m:
+            return None
+        body = m.group(1)
+        out.append('BS')
+        if body == 'n':
+            out.append('Ln')
+        elif body == 't':
+            out.append('Lt')
+        elif body == 'x00':
+            out.append('Ez')
+        elif body in ('"', "'", '\\'):
+            out.append(_sym_plain(body))
+        else:
+            code = {'r': 13, 'f': 12, 'v': 11, 'a': 7, 'b': 8}.get(body)
+            if code is None:
+                code = int(body[1:], 16)
+            out.append(f'E {code}')
+        i += m.end()
+    return out
+
+
+STRING_SLOT_CAPTURES = ['"a\\tb"', "'it''s'", '"""x\ny"""', "'a\tb'", "f'{q!r}\x0c'", 'r"\\d+\\\\"', "'é ​\x7f'", '(p,\n q)', "b'\\x00' b\"z\"", "'''it's \"so\"\n'''", 'lam\\\n.bda', "'\U0001f600'"]
+
+
+def stage_string_slots(ctx: Ctx):
+    """models/SlotEscape.v slot_escape == the text real sub() writes into a `__FST_` slot inside a string constant, for captures whose SOURCE holds quotes of both kinds,
+    backslashes, raw tabs / newlines / form feeds / other non-printables; and Python's evaluation of the resulting literal gives back the capture's source"""
+    import fst
+    from fst.match import M, MAssign
+    quotes = ["'", '"', "'''", '"""']
+    terms, meta = [], []
+    for cap in STRING_SLOT_CAPTURES:
+        try:
+            ast.parse('v = ' + cap)
+        except SyntaxError as e:
+            ctx.broken.append({'kind': 'harness', 'name': 'string_slots', 'detail': f'{cap!r}: {e}'})
+            continue
+        for q in quotes:
+            for pre, post in (('', ''), ('x ', ' y'), ('\\\\', '.')):
+                root = fst.FST('v = ' + cap + '\n', 'exec')
+                template = f'g({q}{pre}__FST_c{post}{q})'
+                rec = {'capture': cap, 'template': template}
+                try:
+                    root.sub(MAssign(value=M(c=...)), 'v = ' + template)
+                except Exception as e:
+                    ctx.violation(f'string-slot-raise|{type(e).__name__}', 'sub() raised on a slot inside a string constant', {**rec, 'error': repr(e)[:200]})
+                    continue
+                ctx.tick(('string-slot', cap, q, pre), 'sub:string-slot')
+                after = root.src
+                try:
+                    lit = ast.parse(after).body[0].value.args[0]
+                    value = lit.value
+                except Exception as e:
+                    ctx.violation('string-slot-unparsable', 'the source after filling a slot inside a string constant does not parse', {**rec, 'after': after})
+                    continue
+                want = ast.literal_eval(f'{q}{pre}{q}') + cap + ast.literal_eval(f'{q}{post}{q}')
+                if value != want:
+                    ctx.violation('sub-struct|string-slot-source', 'the string written by sub() does not read back as the template text with the source of the capture in the slot',
+                                  {**rec, 'after': after, 'evaluates_to': value, 'expected': want})
+                    continue
+                # the text put for the slot: between the literal's opening quotes + pre and post + closing quotes
+                seg = ast.get_source_segment(after, lit)
+                inner = seg[len(q) + len(pre):len(seg) - len(q) - len(post)]
+                real = _syms_escaped(inner)
+                if real is None:
+                    ctx.broken.append({'kind': 'harness', 'name': 'string_slots', 'detail': f'cannot read escapes of {inner!r}'})
+                    continue
+                src_syms = '[' + '; '.join(_sym_plain(ch) for ch in cap) + ']'
+                terms.append(f'ps_eqb (slot_escape {src_syms}) [' + '; '.join(real) + ']')
+                meta.append({**rec, 'written': inner})
+    failed = coq_eval_bools('C18_slotesc', EHDR, terms, shard=60)
+    ctx.correspondence('models/SlotEscape.v slot_escape == the text real sub() writes for a slot inside a string constant (captures with quotes, backslashes, raw control and non-printable characters; four quote styles)',
+                       len(terms), [meta[i] for i in failed])
+
+
 def run(ctx: Ctx):
     ctx.rule = ('corpus + generated programs x 16 scenarios (operand swap, re-shaping with single, slice and quantifier captures, unwrap, wrap the whole match, identity templates for '
                 'several patterns) x nested / flat: FST.subn vs a pure-AST reference (matches decided per node of an untouched twin tree by FST.match, outermost first, template nodes '
@@ -510,6 +603,7 @@ def run(ctx: Ctx):
     run_guarded(ctx, stage_oracle, progs)
     run_guarded(ctx, stage_loop)
     run_guarded(ctx, stage_slots)
+    run_guarded(ctx, stage_string_slots)
     run_guarded(ctx, stage_corr, progs)
 
 
